@@ -121,6 +121,36 @@ func fixIds(v interface{}) {
 	}
 }
 
+// recompute previous_hash of every block of a block list after the block before it was edited
+func fixLinks(v interface{}) {
+	l, ok := v.([]interface{})
+	if !ok {
+		return
+	}
+	for i := 1; i < len(l); i++ {
+		prev, ok1 := l[i-1].(map[string]interface{})
+		cur, ok2 := l[i].(map[string]interface{})
+		if !ok1 || !ok2 {
+			continue
+		}
+		if _, isBlock := cur["previous_hash"]; !isBlock {
+			continue
+		}
+		// hash what the decoder would re-encode: through the mirror with null transactions kept as null
+		bs := mustJSON(prev)
+		var jb JBlock
+		if err := json.Unmarshal(bs, &jb); err != nil {
+			continue
+		}
+		h := jb.Hash()
+		arr := make([]interface{}, 32)
+		for k := range arr {
+			arr[k] = json.Number(fmt.Sprint(h[k]))
+		}
+		cur["previous_hash"] = arr
+	}
+}
+
 func pathString(p path) string {
 	var s []string
 	for _, e := range p {
@@ -246,6 +276,9 @@ func runCrashSuite(seed uint64, n int, out *Out, stats *Stats) {
 			tree := setAt(deepCopy(parseAny(base)), m.p, fk.val, fk.rm)
 			if r.Chance(4, 5) {
 				fixIds(tree)
+				if m.target == "sync-answer" {
+					fixLinks(tree)
+				}
 			}
 			payload := mustJSON(tree)
 			what := fmt.Sprintf("%s %s := %s", m.target, pathString(m.p), fk.name)
